@@ -25,6 +25,8 @@ type Episode struct {
 	Finger uint64
 	Switches, LibSwitches, Ticks, PoolDrops uint64
 	Diverged bool
+	RaceTexts    []string
+	HarnessRaces int
 }
 
 type errReader struct {
@@ -130,6 +132,7 @@ func (wd *World) runEpilogue() {
 	// final status of every handle
 	for _, s := range wd.subs {
 		if s.h != nil && s.h.ej != nil {
+			s.acquire()
 			c := r.begin(opStatus, s.Q, s.N)
 			c.Str = s.h.ej.Status()
 			c.OK = s.h.ej.IsClosed()
@@ -163,7 +166,9 @@ func runEpisode(prop *Property, cfg Cfg, prog *Program, seed uint64, replay []ui
 	ep := &Episode{Cfg: cfg, Prog: prog}
 	wd := newWorld(cfg, prog)
 	ep.W = wd
-	sim := simrt.New(simOptions(cfg, seed, numSites, replay, strict))
+	opts := simOptions(cfg, seed, numSites, replay, strict)
+	opts.OnFinished = raceFence
+	sim := simrt.New(opts)
 	rt := &rootTask{wd: wd, ep: ep, hook: prop.Hook}
 	ep.Res = sim.Run(rt.run)
 	wd.teardown()
@@ -173,5 +178,8 @@ func runEpisode(prop *Property, cfg Cfg, prog *Program, seed uint64, replay []ui
 		ep.Switches, ep.LibSwitches, ep.Ticks, ep.PoolDrops = sim.Switches, sim.LibSwitches, sim.Ticks, sim.PoolDrops
 	}
 	ep.Viols = judge(prop, ep)
+	if *fRaceLog != "" {
+		judgeRaces(ep)
+	}
 	return ep
 }
